@@ -277,7 +277,6 @@ void run_case(Tape& t, Ctx& ctx) {
   c02::classify(e, ctx, tp);
   if (ctx.nontrivial) ctx.hit(std::string("nontrivial:") + kFamilies[fam].name);
   ctx.hit("vmode" + std::to_string(vmode) + (ctx.nontrivial ? ":nontrivial" : ":trivial"));
-  ctx.hit("palette-size-" + std::to_string(pal.v.size()));
   if (e.topdim >= 3) ctx.hit("dimension>=3");
   if (S.empty()) ctx.hit("empty-complex");
 
